@@ -135,6 +135,11 @@ func TestRefHeights(t *testing.T) {
 	if got := h("a b", stIBlock, 1, 9); got[0] != 19.5 { // 15 above the baseline, strut descent 4.5
 		t.Errorf("inline-block, line-height 1.5: %v", got)
 	}
+	// a line that holds nothing but a hanging preserved space of a larger span is as tall as the span
+	ls, _ := refTexts(t, "a b \n c", with(func(r *row) { r.st = stBigFont; r.ws = "pre-wrap" }), 1)
+	if len(ls) != 4 || ls[2].h != 20 {
+		t.Errorf("hanging space in big span: %+v", ls)
+	}
 	if got := h("a b", stPadding, 0, 9); got[0] != 10 { // vertical padding of inline boxes is ignored
 		t.Errorf("padding: %v", got)
 	}
